@@ -209,7 +209,8 @@ def coq_eval_cases(workdir, timeout):
     cases = os.path.join(workdir, "cases.v")
     if not os.path.exists(cases):
         return True, [], "no cases"
-    rc, out, to = sh(["coqc", "-Q", COQ, "Ont", "cases.v"], cwd=workdir, timeout=timeout)
+    # long list literals (thorough tier) overflow coqc's default 8 MB stack: lift the limit for this call
+    rc, out, to = sh(["sh", "-c", "ulimit -s unlimited 2>/dev/null || ulimit -s 1000000 2>/dev/null; exec coqc -Q '%s' Ont cases.v" % COQ], cwd=workdir, timeout=timeout)
     if rc != 0:
         return False, [], out[-3000:]
     mism = []
